@@ -20,14 +20,17 @@ class VirtualNode(RebindableNode, Node):
 
     _root: Root
     _src: VirtualSource
-    _is_leaf: Optional[bool] = None
-    _left: Optional[Node] = None
-    _right: Optional[Node] = None
+    _is_leaf: Optional[bool]
+    _left: Optional[Node]
+    _right: Optional[Node]
     __slots__ = '_root', '_src', '_is_leaf', '_left', '_right'
 
     def __init__(self, root: Root, src: VirtualSource):
         self._root = root
         self._src = src
+        self._is_leaf = None
+        self._left = None
+        self._right = None
 
     def get_left(self) -> Node:
         if self._left is None:
